@@ -296,6 +296,23 @@ def correspondence(ctx):
                         r = guarded(lambda: np.asarray(to_np(G.get_density_matrix_distance2(rh0, sig))).reshape(1))
                         tie.add(f'C16 dist2 {d} {qlist(to_np(rh0))} {qlist(to_np(sig))}', r, tol_for(dt, 1.0), f'dist2-{backend}-{dt}')
     tie.run()
+    # the executed scalars (binary64 square roots as exact rationals) do NOT satisfy Scalars.Valid exactly; measure how far they are
+    # (hypothesis delta of synthesis_float_bridge / analysis_float_bridge): exact residuals from the driver
+    ops = [f'C16 scal {d}' for d in dims]
+    worst = 0.0
+    for op, line in zip(ops, common.run_model(ops)):
+        ctx.count('scalars')
+        try:
+            res = [abs(Fraction(t.split(',')[0])) for t in line.split(';')]
+            w = float(max(res))
+        except Exception:
+            ctx.disagree(op, line[:200], 'exact residuals expected'); continue
+        worst = max(worst, w)
+        if w <= 1e-15:
+            ctx.agree(op, op)
+        else:
+            ctx.disagree(op, f'max residual {w:.3e}', 'executed scalars must satisfy the relations of Scalars.Valid to 1e-15 (binary64 sqrt: <= 2 ulp)')
+    ctx.extra['executed_scalars_max_residual'] = worst
     ctx.extra['tolerance'] = (f'abs <= {TOL64}*scale for float64/complex128, {TOL32}*scale for float32/complex64 inputs (scale = max|input|*d); '
                               f'dm_to_gellmann_norm / distance2 / Bloch vectors near the maximally mixed state: relative {NORM_RTOL} + absolute {NORM_ATOL}')
     ctx.extra['histories'] = [' -> '.join(f'{b}:{t}' for b, t in h) for h in HISTORIES]
